@@ -146,6 +146,9 @@ class Data:
     def __setstate__(self, state):
         """Unpickle lattice from ``(context, concepts)`` tuple."""
         context, concepts = state
+        for c in concepts:
+            for name in ('upper_neighbors', 'lower_neighbors', 'atoms'):
+                setattr(c, name, tuple(concepts[i] for i in getattr(c, name)))
         self._init(self, context, concepts, unpickle=True)
 
     def _tolist(self):
